@@ -265,7 +265,9 @@ fn run_byzantine(knobs: &Knobs, stream: &[u8], cuts: &[usize], keys: &[Vec<u8>],
         if !st.server_closed {
             viols.push(Violation::new("C10", "connection-never-released", format!("after {} bytes of arbitrary input and twice the idle timeout the connection is still held", stream.len())));
         }
-        // the server still serves a well-behaved client
+        // the server still serves a well-behaved client (whatever the valid frames
+        // inside the byzantine stream stored is not the model's business)
+        d.model.wild = true;
         d.step(&Ev::Connect { c: 1 });
         let mut r = SymReq::bare(op::NOOP);
         r.opaque = 0x600d;
